@@ -584,13 +584,10 @@ int pfx_table_copy_except_socket(struct pfx_table *src_table, struct pfx_table *
 	return PFX_SUCCESS;
 }
 
-void pfx_table_swap(struct pfx_table *a, struct pfx_table *b)
+void pfx_table_swap_locked(struct pfx_table *a, struct pfx_table *b)
 {
 	struct trie_node *ipv4_tmp;
 	struct trie_node *ipv6_tmp;
-
-	pthread_rwlock_wrlock(&(a->lock));
-	pthread_rwlock_wrlock(&(b->lock));
 
 	ipv4_tmp = a->ipv4;
 	ipv6_tmp = a->ipv6;
@@ -600,6 +597,14 @@ void pfx_table_swap(struct pfx_table *a, struct pfx_table *b)
 
 	b->ipv4 = ipv4_tmp;
 	b->ipv6 = ipv6_tmp;
+}
+
+void pfx_table_swap(struct pfx_table *a, struct pfx_table *b)
+{
+	pthread_rwlock_wrlock(&(a->lock));
+	pthread_rwlock_wrlock(&(b->lock));
+
+	pfx_table_swap_locked(a, b);
 
 	pthread_rwlock_unlock(&(b->lock));
 	pthread_rwlock_unlock(&(a->lock));
